@@ -20,7 +20,7 @@
    The value of every concrete operation is the run-time operation of Base/Bits32, so
    "the WGSL const value" and "the value at run time" are one definition.
 
-   [Ok v] the value; [Err] shader-creation error; [Ill] no matching overload, or outside
+   [Ok v] the value; [Err r] shader-creation error (with the reason); [Ill] no matching overload, or outside
    the modelled fragment (excluded by the theorems' hypotheses). *)
 From Coq Require Import ZArith Bool List.
 Import ListNotations.
@@ -28,19 +28,29 @@ Require Import Naga.Base.Bits32 Naga.Fold.GoArith Naga.Fold.FoldModel.
 Open Scope Z_scope.
 
 Inductive wval := VI32 (b : Z) | VU32 (b : Z) | VAI (v : Z) | VBool (b : bool).
-Inductive wres := Ok (v : wval) | Err | Ill.
+(* why a const-expression is a shader-creation error *)
+Inductive reason :=
+| RDivZero            (* integer / or % by zero *)
+| RDivOverflow        (* most negative value / or % -1 *)
+| RShiftTooLarge      (* shift amount >= bit width *)
+| RShlOverflow        (* << shifts out significant bits *)
+| RAbstractOverflow   (* AbstractInt arithmetic leaves the 64-bit range *)
+| RNotRepresentable   (* AbstractInt value not representable in the concrete type it must convert to *)
+| RClampLowHigh       (* clamp with low > high *)
+| RLiteralRange.      (* literal token out of range for its type *)
+Inductive wres := Ok (v : wval) | Err (r : reason) | Ill.
 
 Definition in_i32_range (v : Z) : bool := (- H32 <=? v) && (v <? H32).
 Definition in_u32_range (v : Z) : bool := (0 <=? v) && (v <? M32).
 Definition in_s64b (v : Z) : bool := (- H64 <=? v) && (v <? H64).
 
-Definition ai_result (v : Z) : wres := if in_s64b v then Ok (VAI v) else Err.
+Definition ai_result (v : Z) : wres := if in_s64b v then Ok (VAI v) else Err RAbstractOverflow.
 
 (* AbstractInt -> concrete (feasible automatic conversion) *)
 Definition ai_to (t : sty) (v : Z) : wres :=
   match t with
-  | TI32 => if in_i32_range v then Ok (VI32 (wrap v)) else Err
-  | TU32 => if in_u32_range v then Ok (VU32 v) else Err
+  | TI32 => if in_i32_range v then Ok (VI32 (wrap v)) else Err RNotRepresentable
+  | TU32 => if in_u32_range v then Ok (VU32 v) else Err RNotRepresentable
   | _ => Ill
   end.
 
@@ -84,7 +94,7 @@ Definition shl_overflow_u32 (a b : Z) : bool := negb (in_u32_range (a * 2 ^ b)).
 
 Definition wgsl_binary_i32 (op : binop) (a b : Z) : wres :=
   match op with
-  | BDiv | BMod => if div_err_i32 a b then Err else
+  | BDiv | BMod => if div_err_i32 a b then Err (if b =? 0 then RDivZero else RDivOverflow) else
                    match rt_arith_i32 op a b with Some v => Ok (VI32 v) | None => Ill end
   | BAdd | BSub | BMul | BAnd | BOr | BXor =>
     match rt_arith_i32 op a b with Some v => Ok (VI32 v) | None => Ill end
@@ -94,7 +104,7 @@ Definition wgsl_binary_i32 (op : binop) (a b : Z) : wres :=
   end.
 Definition wgsl_binary_u32 (op : binop) (a b : Z) : wres :=
   match op with
-  | BDiv | BMod => if div_err_u32 b then Err else
+  | BDiv | BMod => if div_err_u32 b then Err RDivZero else
                    match rt_arith_u32 op a b with Some v => Ok (VU32 v) | None => Ill end
   | BAdd | BSub | BMul | BAnd | BOr | BXor =>
     match rt_arith_u32 op a b with Some v => Ok (VU32 v) | None => Ill end
@@ -106,8 +116,8 @@ Definition wgsl_binary_u32 (op : binop) (a b : Z) : wres :=
 Definition wgsl_binary_ai (op : binop) (a b : Z) : wres :=
   match op with
   | BAdd => ai_result (a + b) | BSub => ai_result (a - b) | BMul => ai_result (a * b)
-  | BDiv => if b =? 0 then Err else ai_result (Z.quot a b)
-  | BMod => if b =? 0 then Err else if (a =? - H64) && (b =? -1) then Err else ai_result (Z.rem a b)
+  | BDiv => if b =? 0 then Err RDivZero else ai_result (Z.quot a b)
+  | BMod => if b =? 0 then Err RDivZero else if (a =? - H64) && (b =? -1) then Err RDivOverflow else ai_result (Z.rem a b)
   | BAnd => Ok (VAI (Z.land a b)) | BOr => Ok (VAI (Z.lor a b)) | BXor => Ok (VAI (Z.lxor a b))
   | BEq => Ok (VBool (a =? b)) | BNe => Ok (VBool (negb (a =? b)))
   | BLt => Ok (VBool (a <? b)) | BLe => Ok (VBool (a <=? b)) | BGt => Ok (VBool (b <? a)) | BGe => Ok (VBool (b <=? a))
@@ -123,17 +133,17 @@ Definition wgsl_binary_bool (op : binop) (a b : bool) : wres :=
 (* shifts: n is the (u32) shift amount *)
 Definition wgsl_shift (op : binop) (l : wval) (n : Z) : wres :=
   match l with
-  | VI32 a => if 32 <=? n then Err else
+  | VI32 a => if 32 <=? n then Err RShiftTooLarge else
               match op with
-              | BShl => if shl_overflow_i32 a n then Err else Ok (VI32 (shl32 a n))
+              | BShl => if shl_overflow_i32 a n then Err RShlOverflow else Ok (VI32 (shl32 a n))
               | _ => Ok (VI32 (shr_i32 a n))
               end
-  | VU32 a => if 32 <=? n then Err else
+  | VU32 a => if 32 <=? n then Err RShiftTooLarge else
               match op with
-              | BShl => if shl_overflow_u32 a n then Err else Ok (VU32 (shl32 a n))
+              | BShl => if shl_overflow_u32 a n then Err RShlOverflow else Ok (VU32 (shl32 a n))
               | _ => Ok (VU32 (shr_u32 a n))
               end
-  | VAI a => if 64 <=? n then Err else
+  | VAI a => if 64 <=? n then Err RShiftTooLarge else
              match op with
              | BShl => ai_result (a * 2 ^ n)
              | _ => Ok (VAI (Z.shiftr a n))
@@ -145,7 +155,7 @@ Definition wgsl_binary (op : binop) (l r : wval) : wres :=
   if is_shift op then
     match r with
     | VU32 n => wgsl_shift op l n
-    | VAI n => if in_u32_range n then wgsl_shift op l n else Err
+    | VAI n => if in_u32_range n then wgsl_shift op l n else Err RNotRepresentable
     | _ => Ill
     end
   else
@@ -153,10 +163,10 @@ Definition wgsl_binary (op : binop) (l r : wval) : wres :=
     | VI32 a, VI32 b => wgsl_binary_i32 op a b
     | VU32 a, VU32 b => wgsl_binary_u32 op a b
     | VAI a, VAI b => wgsl_binary_ai op a b
-    | VAI a, VI32 b => if in_i32_range a then wgsl_binary_i32 op (wrap a) b else Err
-    | VI32 a, VAI b => if in_i32_range b then wgsl_binary_i32 op a (wrap b) else Err
-    | VAI a, VU32 b => if in_u32_range a then wgsl_binary_u32 op a b else Err
-    | VU32 a, VAI b => if in_u32_range b then wgsl_binary_u32 op a b else Err
+    | VAI a, VI32 b => if in_i32_range a then wgsl_binary_i32 op (wrap a) b else Err RNotRepresentable
+    | VI32 a, VAI b => if in_i32_range b then wgsl_binary_i32 op a (wrap b) else Err RNotRepresentable
+    | VAI a, VU32 b => if in_u32_range a then wgsl_binary_u32 op a b else Err RNotRepresentable
+    | VU32 a, VAI b => if in_u32_range b then wgsl_binary_u32 op a b else Err RNotRepresentable
     | VBool a, VBool b => wgsl_binary_bool op a b
     | _, _ => Ill
     end.
@@ -175,7 +185,7 @@ Definition wgsl_unary (op : unop) (v : wval) : wres :=
 (* value constructors i32(e) u32(e) bool(e); an AbstractInt argument first converts to the
    parameter type of lowest conversion rank that can hold it: i32, else u32 *)
 Definition ai_concretize_any (v : Z) : wres :=
-  if in_i32_range v then Ok (VI32 (wrap v)) else if in_u32_range v then Ok (VU32 v) else Err.
+  if in_i32_range v then Ok (VI32 (wrap v)) else if in_u32_range v then Ok (VU32 v) else Err RNotRepresentable.
 Definition wgsl_convert_concrete (t : sty) (v : wval) : wres :=
   match t, v with
   | TI32, VI32 a => Ok (VI32 a) | TI32, VU32 a => Ok (VI32 (i32_of_u32 a)) | TI32, VBool b => Ok (VI32 (u32_of_bool b))
@@ -201,13 +211,13 @@ Definition unify_to (t : sty) (v : wval) : wres :=
   end.
 Fixpoint first_concrete (vs : list wval) : option sty :=
   match vs with [] => None | v :: r => match concrete_ty v with Some t => Some t | None => first_concrete r end end.
-Fixpoint unify_all (t : sty) (vs : list wval) : option (list wval) + bool (* inr true = Err, inr false = Ill *) :=
+Fixpoint unify_all (t : sty) (vs : list wval) : option (list wval) + option reason (* inr (Some r) = Err r, inr None = Ill *) :=
   match vs with
   | [] => inl (Some [])
   | v :: r => match unify_to t v with
               | Ok v' => match unify_all t r with inl (Some l) => inl (Some (v' :: l)) | x => x end
-              | Err => match unify_all t r with inr false => inr false | _ => inr true end
-              | Ill => inr false
+              | Err x => match unify_all t r with inr None => inr None | _ => inr (Some x) end
+              | Ill => inr None
               end
   end.
 
@@ -217,7 +227,7 @@ Definition wgsl_math_i32 (f : mathfn) (args : list Z) : wres :=
   | MSign, [a] => Ok (VI32 (sign_i32 a))
   | MMin, [a; b] => Ok (VI32 (min_i32 a b))
   | MMax, [a; b] => Ok (VI32 (max_i32 a b))
-  | MClamp, [e; lo; hi] => if lt_i32 hi lo then Err else Ok (VI32 (clamp_i32 e lo hi))
+  | MClamp, [e; lo; hi] => if lt_i32 hi lo then Err RClampLowHigh else Ok (VI32 (clamp_i32 e lo hi))
   | MCountTrailingZeros, [a] => Ok (VI32 (count_trailing_zeros a))
   | MCountLeadingZeros, [a] => Ok (VI32 (count_leading_zeros a))
   | MCountOneBits, [a] => Ok (VI32 (count_one_bits a))
@@ -231,7 +241,7 @@ Definition wgsl_math_u32 (f : mathfn) (args : list Z) : wres :=
   | MAbs, [a] => Ok (VU32 a)
   | MMin, [a; b] => Ok (VU32 (min_u32 a b))
   | MMax, [a; b] => Ok (VU32 (max_u32 a b))
-  | MClamp, [e; lo; hi] => if lt_u32 hi lo then Err else Ok (VU32 (clamp_u32 e lo hi))
+  | MClamp, [e; lo; hi] => if lt_u32 hi lo then Err RClampLowHigh else Ok (VU32 (clamp_u32 e lo hi))
   | MCountTrailingZeros, [a] => Ok (VU32 (count_trailing_zeros a))
   | MCountLeadingZeros, [a] => Ok (VU32 (count_leading_zeros a))
   | MCountOneBits, [a] => Ok (VU32 (count_one_bits a))
@@ -246,7 +256,7 @@ Definition wgsl_math_ai (f : mathfn) (args : list Z) : wres :=
   | MSign, [a] => Ok (VAI (Z.sgn a))
   | MMin, [a; b] => Ok (VAI (Z.min a b))
   | MMax, [a; b] => Ok (VAI (Z.max a b))
-  | MClamp, [e; lo; hi] => if hi <? lo then Err else Ok (VAI (Z.min (Z.max e lo) hi))
+  | MClamp, [e; lo; hi] => if hi <? lo then Err RClampLowHigh else Ok (VAI (Z.min (Z.max e lo) hi))
   | _, _ => Ill
   end.
 Definition is_bit_builtin (f : mathfn) : bool :=
@@ -266,20 +276,15 @@ Definition wgsl_math (f : mathfn) (vs : list wval) : wres :=
                       | _ => Ill
                       end
     | inl None => Ill
-    | inr true => Err
-    | inr false => Ill
+    | inr (Some r) => Err r
+    | inr None => Ill
     end
   | None =>
     (* all AbstractInt: the integer builtins that accept AbstractInt stay abstract; the bit
-       builtins have no AbstractInt overload: the argument converts to i32, else u32 *)
+       builtins have no AbstractInt overload: the argument converts to i32 *)
     if is_bit_builtin f then
       match vs with
-      | [VAI a] => match ai_concretize_any a with
-                   | Ok (VI32 x) => wgsl_math_i32 f [x]
-                   | Ok (VU32 x) => wgsl_math_u32 f [x]
-                   | Err => Err
-                   | _ => Ill
-                   end
+      | [VAI a] => if in_i32_range a then wgsl_math_i32 f [wrap a] else Ill   (* which overload a larger value selects is not clear to me: not claimed *)
       | _ => Ill
       end
     else wgsl_math_ai f (map payload vs)
@@ -287,20 +292,29 @@ Definition wgsl_math (f : mathfn) (vs : list wval) : wres :=
 
 Definition wgsl_literal (l : lit) : wres :=
   match l with
-  | LI32 b => if (0 <=? b) && (b <? H32) then Ok (VI32 b) else Err
-  | LU32 b => if in_u32_range b then Ok (VU32 b) else Err
-  | LAI v => if (0 <=? v) && (v <? H64) then Ok (VAI v) else Err
+  | LI32 b => if (0 <=? b) && (b <? H32) then Ok (VI32 b) else Err RLiteralRange
+  | LU32 b => if in_u32_range b then Ok (VU32 b) else Err RLiteralRange
+  | LAI v => if (0 <=? v) && (v <? H64) then Ok (VAI v) else Err RLiteralRange
   | LBool b => Ok (VBool b)
   | _ => Ill
   end.
 
-Definition bind (r : wres) (k : wval -> wres) : wres := match r with Ok v => k v | Err => Err | Ill => Ill end.
+Definition bind (r : wres) (k : wval -> wres) : wres := match r with Ok v => k v | Err r => Err r | Ill => Ill end.
 (* both operands are evaluated: an error in either is an error (Ill wins: outside the fragment) *)
 Definition bind2 (r1 r2 : wres) (k : wval -> wval -> wres) : wres :=
   match r1, r2 with
   | Ok a, Ok b => k a b
   | Ill, _ | _, Ill => Ill
-  | _, _ => Err
+  | Err r, _ => Err r
+  | _, Err r => Err r
+  end.
+Definition bind3 (r1 r2 r3 : wres) (k : wval -> wval -> wval -> wres) : wres :=
+  match r1, r2, r3 with
+  | Ok a, Ok b, Ok c => k a b c
+  | Ill, _, _ | _, Ill, _ | _, _, Ill => Ill
+  | Err r, _, _ => Err r
+  | _, Err r, _ => Err r
+  | _, _, Err r => Err r
   end.
 
 Fixpoint wgsl_eval (e : cexpr) : wres :=
@@ -324,27 +338,17 @@ Fixpoint wgsl_eval (e : cexpr) : wres :=
   | CAs t a => bind (wgsl_eval a) (wgsl_convert t)
   | CMath1 f a => bind (wgsl_eval a) (fun x => wgsl_math f [x])
   | CMath2 f a b => bind2 (wgsl_eval a) (wgsl_eval b) (fun x y => wgsl_math f [x; y])
-  | CMath3 f a b c =>
-    match wgsl_eval a, wgsl_eval b, wgsl_eval c with
-    | Ok x, Ok y, Ok z => wgsl_math f [x; y; z]
-    | Ill, _, _ | _, Ill, _ | _, _, Ill => Ill
-    | _, _, _ => Err
-    end
+  | CMath3 f a b c => bind3 (wgsl_eval a) (wgsl_eval b) (wgsl_eval c) (fun x y z => wgsl_math f [x; y; z])
   | CSelect fv tv c =>
-    match wgsl_eval fv, wgsl_eval tv, wgsl_eval c with
-    | Ok x, Ok y, Ok (VBool cb) =>
-      match first_concrete [x; y] with
-      | Some t => match unify_to t x, unify_to t y with
-                  | Ok x', Ok y' => Ok (if cb then y' else x')
-                  | Ill, _ | _, Ill => Ill
-                  | _, _ => Err
-                  end
-      | None => Ok (if cb then y else x)
-      end
-    | Ill, _, _ | _, Ill, _ | _, _, Ill => Ill
-    | Ok _, Ok _, Ok _ => Ill
-    | _, _, _ => Err
-    end
+    bind3 (wgsl_eval fv) (wgsl_eval tv) (wgsl_eval c) (fun x y cv =>
+      match cv with
+      | VBool cb =>
+        match first_concrete [x; y] with
+        | Some t => bind2 (unify_to t x) (unify_to t y) (fun x' y' => Ok (if cb then y' else x'))
+        | None => Ok (if cb then y else x)
+        end
+      | _ => Ill
+      end)
   end.
 
 (* the value is finally used where a [t] is required (store to a t variable, `const c : t`,
@@ -359,3 +363,71 @@ Definition wgsl_as_default (r : wres) : wres :=
 
 Definition lit_of_wval (v : wval) : lit :=
   match v with VI32 b => LI32 b | VU32 b => LU32 b | VAI a => LAI a | VBool b => LBool b end.
+
+(* ---- the same expression evaluated at run time (operands arriving in variables):
+   no shader-creation errors exist there; / and % by zero, MIN / -1, shift amounts >= 32
+   and clamp with low > high have the run-time results WGSL defines (Base/Bits32).
+   Only for trees whose leaves are concrete (i32/u32/bool): an AbstractInt has no
+   run-time existence ([Ill]). *)
+Definition rt_binary (op : binop) (l r : wval) : wres :=
+  if is_shift op then
+    match l, r with
+    | VI32 a, VU32 n => Ok (VI32 (match op with BShl => shl32 a n | _ => shr_i32 a n end))
+    | VU32 a, VU32 n => Ok (VU32 (match op with BShl => shl32 a n | _ => shr_u32 a n end))
+    | _, _ => Ill
+    end
+  else
+    match l, r with
+    | VI32 a, VI32 b =>
+      match rt_arith_i32 op a b, rt_cmp_i32 op a b with
+      | Some v, _ => Ok (VI32 v) | None, Some c => Ok (VBool c) | None, None => Ill end
+    | VU32 a, VU32 b =>
+      match rt_arith_u32 op a b, rt_cmp_u32 op a b with
+      | Some v, _ => Ok (VU32 v) | None, Some c => Ok (VBool c) | None, None => Ill end
+    | VBool a, VBool b => wgsl_binary_bool op a b
+    | _, _ => Ill
+    end.
+Definition rt_math (f : mathfn) (vs : list wval) : wres :=
+  match f, vs with
+  | MClamp, [VI32 e; VI32 lo; VI32 hi] => Ok (VI32 (clamp_i32 e lo hi))
+  | MClamp, [VU32 e; VU32 lo; VU32 hi] => Ok (VU32 (clamp_u32 e lo hi))
+  | _, _ => match first_concrete vs with
+            | Some TI32 => if forallb (fun v => match v with VI32 _ => true | _ => false end) vs
+                           then wgsl_math_i32 f (map payload vs) else Ill
+            | Some TU32 => if forallb (fun v => match v with VU32 _ => true | _ => false end) vs
+                           then wgsl_math_u32 f (map payload vs) else Ill
+            | _ => Ill
+            end
+  end.
+Fixpoint rt_eval (e : cexpr) : wres :=
+  match e with
+  | CLit (LAI _) => Ill
+  | CLit l => wgsl_literal l
+  | CUn op a => bind (rt_eval a) (wgsl_unary op)
+  | CBin op a b =>
+    if is_logical op then
+      match rt_eval a with
+      | Ok (VBool x) =>
+        match op, x with
+        | BLAnd, false => Ok (VBool false)
+        | BLOr, true => Ok (VBool true)
+        | _, _ => bind (rt_eval b) (fun r => match r with VBool y => Ok (VBool y) | _ => Ill end)
+        end
+      | Ok _ => Ill
+      | r => r
+      end
+    else bind2 (rt_eval a) (rt_eval b) (rt_binary op)
+  | CAs t a => bind (rt_eval a) (wgsl_convert_concrete t)
+  | CMath1 f a => bind (rt_eval a) (fun x => rt_math f [x])
+  | CMath2 f a b => bind2 (rt_eval a) (rt_eval b) (fun x y => rt_math f [x; y])
+  | CMath3 f a b c => bind3 (rt_eval a) (rt_eval b) (rt_eval c) (fun x y z => rt_math f [x; y; z])
+  | CSelect fv tv c =>
+    match rt_eval fv, rt_eval tv, rt_eval c with
+    | Ok x, Ok y, Ok (VBool cb) =>
+      match concrete_ty x, concrete_ty y with
+      | Some TI32, Some TI32 | Some TU32, Some TU32 | Some TBool, Some TBool => Ok (if cb then y else x)
+      | _, _ => Ill
+      end
+    | _, _, _ => Ill
+    end
+  end.
